@@ -918,6 +918,18 @@ def batch_read(src, mode="stdio", verify=True, batch_size=1024, projection=None,
     return parse_batch_read(out, hold)
 
 
+def batch_rows(batches, present_bit=0):
+    """[Batch] -> one list of logical rows per projected column (concatenation of the batches; a row is
+    present when its bitmap bit equals present_bit, or always when the column has no bitmap)."""
+    cols = {}
+    for b in batches:
+        for j, c in enumerate(b.columns):
+            n = max(c.num_values, 0)
+            bm = c.bitmap if c.bitmap is not None else [present_bit] * n
+            cols.setdefault(j, []).extend(assemble([1 if x == present_bit else 0 for x in bm], c.values, 1))
+    return [cols[j] for j in sorted(cols)]
+
+
 def parse_batch_read(out, hold=False):
     """CaseOut of the script built by batch_read -> the dict batch_read returns."""
     lines = out.lines
